@@ -425,7 +425,10 @@ def _chunk(args):
         sites, exc_i = job[0], job[1]
         rng = random.Random(f"C20/{seed}/{i}/{j}")
         try:
-            check_case(gen_case(rng, sites, exc_i, garbage=(job[2] if len(job) > 2 else None)), sess)
+            c_ = gen_case(rng, sites, exc_i, garbage=(job[2] if len(job) > 2 else None))
+            if len(job) > 3 and job[3]:
+                c_["exc_msg"] = job[3]
+            check_case(c_, sess)
         except Exception as ex:
             import traceback
             sess.inconclusive_because(f"harness error {type(ex).__name__}: {ex} @ {traceback.format_exc()[-600:]}")
@@ -445,6 +448,10 @@ def main(tier: str, seed: int):
         for e in types:
             for _ in range(reps if s != "boot-garbage" else max(reps, 5)):
                 plan.append(([s], e))
+        # every shape of exception arguments at every site (one exception type each in the quick tier)
+        for style in ("empty", "noargs", "multiline", "non-str"):
+            for e in (types[:1] if tier == "quick" else types):
+                plan.append(([s], e, None, style))
     # the boot loader against every (kind of foreign file x file name) - which file wins the "latest" pick depends on both
     for rep in range(1 if tier == "quick" else 10):
         for gk in GARBAGE:
